@@ -23,6 +23,7 @@ import (
 	"time"
 
 	"github.com/cheggaaa/mb/v3"
+	"golang.org/x/time/rate"
 	"storj.io/drpc"
 
 	"github.com/anyproto/any-sync/app"
@@ -324,16 +325,18 @@ type psWorld struct {
 	streams []*psStream
 	member  map[string]map[string]bool // space -> account id -> member
 	// expected copies: msg key -> stream name -> count
-	expect   map[string]map[string]int
-	forward  map[string]map[string]int // msg key -> other node peer id -> forwarded copies seen
-	wantFwd  map[string]bool           // msg key -> a forward to every other node is expected
-	noFwd    map[string]bool           // msg key -> must never be forwarded
-	seenPub  []*pubsubproto.Publish    // valid publishes seen on the wire (material for replays)
-	opN      int
-	teardown bool
-	msgN     int
-	ops      []psOp
-	nodeOpen bool // the node has no membership checker: every proven identity may subscribe and publish
+	expect    map[string]map[string]int
+	forward   map[string]map[string]int // msg key -> other node peer id -> forwarded copies seen
+	wantFwd   map[string]bool           // msg key -> a forward to every other node is expected
+	noFwd     map[string]bool           // msg key -> must never be forwarded
+	seenPub   []*pubsubproto.Publish    // valid publishes seen on the wire (material for replays)
+	opN       int
+	teardown  bool
+	msgN      int
+	ops       []psOp
+	rateBurst int // > 0: the node's publish budget is in reach (1 message per second, this burst)
+	buckets   map[string]*rate.Limiter
+	nodeOpen  bool // the node has no membership checker: every proven identity may subscribe and publish
 }
 
 var psSpaces = []string{"sA", "sB"}
@@ -515,6 +518,19 @@ func (w *psWorld) verdictPublishAtNode(st *psStream, p *pubsubproto.Publish) (bo
 	}
 	if o := psOwner(p.Topic); o != "" && o != st.acct.id {
 		return false, "topic owned by another account"
+	}
+	// the per-peer publish budget is spent by authorised client publishes only (relayed messages were
+	// budgeted by the node that accepted them)
+	if w.rateBurst > 0 {
+		l := w.buckets[st.remote]
+		if l == nil {
+			l = rate.NewLimiter(1, w.rateBurst)
+			w.buckets[st.remote] = l
+		}
+		if !l.Allow() {
+			w.r.Probe("rate-limited")
+			return false, "over the publish budget of its peer"
+		}
 	}
 	return true, ""
 }
@@ -1257,8 +1273,15 @@ func runC17(r *core.Run) {
 		}
 	}
 	cfg := pubsub.Config{MaxPayloadSize: psMaxPayload, PublishRps: 1e6, PublishBurst: 1 << 20, MaxTimestampSkew: psSkew, DialQueueWorkers: 1}
+	nodeCfg := cfg
+	w.buckets = map[string]*rate.Limiter{}
+	if s.Flip("rate-budget-in-reach", 0.2) {
+		w.rateBurst = 2 + s.Choose("burst", 3)
+		nodeCfg.PublishRps, nodeCfg.PublishBurst = 1, w.rateBurst
+	}
+	r.SetCfg("node_publish_burst", w.rateBurst)
 	nodeAcct := w.newAcct("NODE")
-	nodeDeps := pubsub.Deps{Membership: psMembership{w}, Relay: psRelay{w}, Config: cfg}
+	nodeDeps := pubsub.Deps{Membership: psMembership{w}, Relay: psRelay{w}, Config: nodeCfg}
 	if w.nodeOpen = s.Flip("open-node", 0.15); w.nodeOpen {
 		nodeDeps.Membership = nil
 	}
